@@ -11,6 +11,7 @@ JACOBI == BASIC through one WHFast step, MERCURIUS mode0+mode1 and TRACE interac
 """
 import json, math, random
 from vf import core
+from vf.num import gt, nmax as max, nmin as min
 
 PROPERTY = "C02"
 EPS = 2.0 ** -52
@@ -149,7 +150,7 @@ def run_case(case):
             tot = (m[:, None] * got).astype(np.longdouble).sum(axis=0)
             scale = (np.abs(m[:, None] * got)).astype(np.longdouble).sum()
             counters['momentum_checks'] = 1
-            if float(np.abs(tot).max()) > (64 + 4 * math.sqrt(nterms)) * EPS * float(scale) + 1e-300:
+            if gt(float(np.abs(tot).max()), (64 + 4 * math.sqrt(nterms)) * EPS * float(scale) + 1e-300):
                 viol.append(dict(mech='force:%s-net-momentum-change' % kind, msg='sum m_i a_i = %r, scale %.3e' % ([float(q) for q in tot], float(scale))))
     elif kind == 'tree':
         th2 = case['theta2']
@@ -191,7 +192,7 @@ def run_case(case):
             clib.reb_simulation_update_acceleration(ctypes.byref(sim))
             got2 = acc(sim)
             err2 = np.sqrt(((got2.astype(np.longdouble) - want) ** 2).sum(axis=1)) if N else np.zeros(0)
-            if N and not any(ghosts) and float(err2.sum()) > 2 * float(err.sum()) + 64 * EPS * float(mag.sum()):
+            if N and not any(ghosts) and gt(float(err2.sum()), 2 * float(err.sum()) + 64 * EPS * float(mag.sum())):
                 viol.append(dict(mech='force:tree-error-grows-when-theta-shrinks', msg='sum err(theta2=%g)=%.3e, sum err(theta2=%g)=%.3e' % (th2, float(err.sum()), th2 / 4, float(err2.sum()))))
             nontrivial = N > 8 and float(err.sum()) > 0
     elif kind == 'jacobi':
@@ -215,7 +216,7 @@ def run_case(case):
         d = np.abs(out[0] - out[1]).max() if N else 0.0
         sc = np.abs(out[0]).max() if N else 1.0
         counters['particles_checked'] += N
-        if d > 2e3 * EPS * sc:
+        if gt(d, 2e3 * EPS * sc):
             viol.append(dict(mech='force:jacobi-differs-from-basic', msg='after one WHFast step: max|diff|=%.3e scale %.3e N=%d' % (d, sc, N)))
         nontrivial = N >= 3
     elif kind in ('mercurius', 'trace'):
